@@ -5,10 +5,12 @@ import (
 	"context"
 	"errors"
 	"fmt"
+	"io"
 	"net/http"
 	"net/http/httptest"
 	"sort"
 	"strings"
+	"time"
 
 	connect "github.com/bufbuild/connect-go"
 )
@@ -366,6 +368,51 @@ func recoverSpecProbe(c *Ctx) {
 	}
 }
 
+// openBodyReader never reports the end of the request body until released.
+type openBodyReader struct{ release chan struct{} }
+
+func (o *openBodyReader) Read(p []byte) (int, error) { <-o.release; return 0, io.EOF }
+func (o *openBodyReader) Close() error               { return nil }
+
+// rejectionWhileOpenProbe: a handler's 405 / 415 / 505 does not wait for the request body: the
+// peer of a full-duplex call may only finish its upload after it has seen the answer (round 9, C12-ml).
+func rejectionWhileOpenProbe(c *Ctx) {
+	for _, tc := range []struct {
+		what, method, ct string
+		major            int
+		want             int
+	}{
+		{"unsupported Content-Type", "POST", "application/x-unknown", 2, 415},
+		{"GET", "GET", "application/connect+proto", 2, 405},
+		{"bidi over HTTP/1.1", "POST", "application/connect+proto", 1, 505},
+	} {
+		h := connect.NewBidiStreamHandler("/s/m", func(ctx context.Context, s *connect.BidiStream[[]byte, []byte]) error { return nil })
+		body := &openBodyReader{release: make(chan struct{})}
+		req := httptest.NewRequest(tc.method, "/s/m", body)
+		req.ProtoMajor, req.ProtoMinor = tc.major, 0
+		if tc.major == 1 {
+			req.ProtoMinor = 1
+		}
+		req.Header.Set("Content-Type", tc.ct)
+		rec := httptest.NewRecorder()
+		done := make(chan struct{})
+		go func() { defer close(done); h.ServeHTTP(rec, req) }()
+		got := ""
+		select {
+		case <-done:
+			got = fmt.Sprintf("answered %d", rec.Code)
+		case <-time.After(1500 * time.Millisecond):
+			got = "ServeHTTP still waiting for the request body after 1.5 s"
+		}
+		close(body.release)
+		<-done
+		c.Count("rejection-while-open")
+		if got != fmt.Sprintf("answered %d", tc.want) {
+			c.Fail("disp-rejection-waits", "bidi handler, "+tc.what+", request body still open", got, fmt.Sprintf("the rejection is answered at once: %d", tc.want))
+		}
+	}
+}
+
 func streamDisp(c *Ctx) {
 	if replayOp != "" {
 		if strings.HasPrefix(replayOp, "disp") {
@@ -377,6 +424,7 @@ func streamDisp(c *Ctx) {
 	}
 	specReuseProbe(c)
 	recoverSpecProbe(c)
+	rejectionWhileOpenProbe(c)
 	doneContextChainProbe(c, "disp-once")
 	r := c.Rng
 	kinds := []string{"unary", "client", "server", "bidi"}
